@@ -250,6 +250,17 @@ func predConcurrent(c Case) (r Result) {
 				switch {
 				case mode == "oneshot":
 					o.Panic = safely(func() { o.Val, o.Err = jp.Search(expr, doc) })
+				case mode == "oneshot-churn":
+					// every second caller pushes a hundred other expressions through the one-shot
+					// Search first (anything the package keeps per expression text turns over)
+					o.Panic = safely(func() {
+						if g%2 == 1 && i%5 == 0 {
+							for k := 0; k < 100; k++ {
+								_, _ = jp.Search(churnExprs[(g*131+i*17+k)%len(churnExprs)], doc)
+							}
+						}
+						o.Val, o.Err = jp.Search(expr, doc)
+					})
 				case mode == "mixed" && g%2 == 1:
 					o.Panic = safely(func() {
 						otherExpr := c06Templates[(g+i)%len(c06Templates)]
@@ -348,7 +359,16 @@ func predConcurrent(c Case) (r Result) {
 	return
 }
 
-var c12Modes = []string{"same-doc", "own-docs", "oneshot", "mixed", "reader"}
+var c12Modes = []string{"same-doc", "own-docs", "oneshot", "mixed", "reader", "oneshot-churn"}
+
+// 1500 distinct small expressions
+var churnExprs = func() []string {
+	var out []string
+	for i := 0; i < 500; i++ {
+		out = append(out, fmt.Sprintf("k%d", i), fmt.Sprintf("nums[%d]", i), fmt.Sprintf("people[?age > `%d`].name", i))
+	}
+	return out
+}()
 
 // literal-sharing expressions: literals are stored in the shared AST and returned by reference
 var c12LiteralExprs = []string{
